@@ -21,7 +21,13 @@ fn run(program: &str) -> std::result::Result<String, String> {
 }
 
 #[test]
-fn verif_native_tail_arity_witness() {
+fn verif_native_tail_arity_witness() { search(false) }
+
+/// C07: only a PANIC counts (a wrong classification is C08's business)
+#[test]
+fn verif_native_tail_arity_panic() { search(true) }
+
+fn search(panic_only: bool) {
     std::panic::set_hook(Box::new(|_| {}));
     let mut n = 0;
     let mut bad: Vec<String> = Vec::new();
@@ -41,11 +47,11 @@ fn verif_native_tail_arity_witness() {
                     let accepted = nargs >= fixed && (nargs == fixed || variadic);
                     n += 1;
                     let got = run(&program);
-                    let ok = match (&got, accepted) {
+                    let ok = if panic_only { got.is_ok() } else { match (&got, accepted) {
                         (Ok(s), true) => s.starts_with("value"),
                         (Ok(s), false) => s == "ArgumentMissMatch",
                         (Err(_), _) => false,
-                    };
+                    } };
                     if !ok && bad.len() < 4 {
                         bad.push(format!("{:?} -> {:?} (count accepted by the formals: {})", program, got, accepted));
                     }
@@ -54,7 +60,7 @@ fn verif_native_tail_arity_witness() {
         }
     }
     if bad.is_empty() {
-        println!("VERIF-NATIVE: ok {} tail-call programs: an unacceptable argument count is always ArgumentMissMatch", n);
+        println!("VERIF-NATIVE: ok {} tail-call programs: {}", n, if panic_only { "none panics" } else { "an unacceptable argument count is always ArgumentMissMatch" });
     } else {
         println!("VERIF-NATIVE: disagree {}", bad.join(" ; "));
     }
